@@ -39,13 +39,13 @@ def sig_of(v: dict[str, Any]) -> str:
 
 # ------------------------------------------------------------------ single run
 class SimHang(Exception):
-    """Raised by the per-run watchdog inside whatever code has been running for RUN_WALL_LIMIT seconds of *wall* time: one
+    """Raised by the per-run watchdog inside whatever code has been running for 2 x RUN_WALL_LIMIT seconds of *CPU* time: one
     simulated run takes milliseconds, so this is code that does not return (a parser looping for ever inside a protocol
     callback).  Raised as an ordinary exception so that it surfaces where asyncio would see it: inside a protocol callback
     it is recorded as an escape ("SimHang@<function>"), anywhere else it is a harness error."""
 
 
-RUN_WALL_LIMIT = float(os.environ.get("VERIF_RUN_WALL_LIMIT", "10"))
+RUN_WALL_LIMIT = float(os.environ.get("VERIF_RUN_WALL_LIMIT", "5"))
 
 
 HANGS: list[str] = []     # functions of the code under test the watchdog interrupted during the current run
@@ -72,7 +72,7 @@ def _hang_handler(signum, frame):
             break
         f = f.f_back
     HANGS.append(name)
-    raise SimHang(f"no progress for {RUN_WALL_LIMIT:.0f} s of wall-clock time")
+    raise SimHang(f"no progress of the simulated loop within {RUN_WALL_LIMIT:.0f} s of CPU time")
 
 
 def run_one(mod, plan: dict[str, Any]) -> dict[str, Any]:
@@ -82,11 +82,13 @@ def run_one(mod, plan: dict[str, Any]) -> dict[str, Any]:
     try:
         import signal
         import threading
-        if threading.current_thread() is threading.main_thread() and getattr(mod, "HANG_WATCHDOG", False):
+        if threading.current_thread() is threading.main_thread() and getattr(mod, "HANG_WATCHDOG", True):
             del HANGS[:]
             _LAST_ITER[0] = None
-            signal.signal(signal.SIGALRM, _hang_handler)
-            signal.setitimer(signal.ITIMER_REAL, RUN_WALL_LIMIT, RUN_WALL_LIMIT)
+            # CPU time of this process, not wall-clock time: a worker starved of CPU by other processes makes no progress
+            # either, but a parser looping for ever burns CPU
+            signal.signal(signal.SIGVTALRM, _hang_handler)
+            signal.setitimer(signal.ITIMER_VIRTUAL, RUN_WALL_LIMIT, RUN_WALL_LIMIT)
             armed = True
     except (ValueError, OSError, AttributeError):
         armed = False
@@ -97,7 +99,7 @@ def run_one(mod, plan: dict[str, Any]) -> dict[str, Any]:
     finally:
         if armed:
             import signal
-            signal.setitimer(signal.ITIMER_REAL, 0)
+            signal.setitimer(signal.ITIMER_VIRTUAL, 0)
         gc.enable()
     res.setdefault("violations", [])
     res.setdefault("probes", {})
